@@ -426,7 +426,9 @@ def probe(b, want=("M", "L", "R", "T")):
     jax = jx()
     lh, p = b.lh, b.p
 
-    def everything():
+    def everything(x0):
+        # the point is an ARGUMENT of the compiled program (no constant folding of the whole computation)
+        p = unflat_like(b.dom_specs, b.dom_def, x0)
         out = {}
         if "M" in want:
             out["M"] = _lin(lambda t: lh.metric(p, t), b.dom_specs, b.dom_def)
@@ -435,12 +437,12 @@ def probe(b, want=("M", "L", "R", "T")):
         if "R" in want:
             out["R"] = _lin(lambda t: lh.right_sqrt_metric(p, t), b.dom_specs, b.dom_def)
         if "T" in want:
-            x0 = realflat(p)
             g = lambda v: realflat(lh.transformation(unflat_like(b.dom_specs, b.dom_def, v)))
             out["T"] = jax.jacfwd(g)(x0)
             out["Tval"] = g(x0)
         return out
-    return {k: np.asarray(v) for k, v in jax.jit(everything)().items()}
+    x0 = jax.numpy.asarray(np.asarray(realflat(p), dtype=float))
+    return {k: np.asarray(v) for k, v in jax.jit(everything)(x0).items()}
 
 
 def transformation_jacobians(case, bases, variants):
